@@ -74,6 +74,19 @@ func c20Schema(t *rapid.T) kit.Schema {
 	p.AnyEnums = true
 	p.Constraints = rapid.Bool().Draw(t, "constraints")
 	s := kit.GenSchema(t, p)
+	// often: several string enums in one table (their declarations are generated from a map
+	// of columns: order must not depend on its iteration)
+	if rapid.Bool().Draw(t, "manyenums") {
+		ti := rapid.IntRange(0, len(s.Tables)-1).Draw(t, "enumtable")
+		for i, n := 0, rapid.IntRange(2, 4).Draw(t, "nenums"); i < n; i++ {
+			vals := rapid.Permutation([]string{"on", "off", "auto", "up-down", "a b"}).Draw(t, "enumvals")[:rapid.IntRange(1, 3).Draw(t, "nvals")]
+			var atoms []kit.Atom
+			for _, v := range vals {
+				atoms = append(atoms, kit.Str(v))
+			}
+			s.Tables[ti].Cols = append(s.Tables[ti].Cols, kit.Col{Name: fmt.Sprintf("extra_enum_%c", 'a'+i), Key: kit.Base{T: kit.TStr, Enum: atoms}, Min: 1, Max: 1})
+		}
+	}
 	excluded := 0
 	for ti := range s.Tables {
 		for ci := range s.Tables[ti].Cols {
@@ -155,11 +168,14 @@ func TestC20(t *testing.T) {
 			out["model.go"] = src
 			return out
 		}
-		first, second := render(), render()
-		for name, src := range first {
-			if !bytes.Equal(src, second[name]) {
-				kase.Source = string(src)
-				fail("generate.nondeterministic", "%s differs between two runs on the same schema", name)
+		first := render()
+		for run := 0; run < 3; run++ {
+			again := render()
+			for name, src := range first {
+				if !bytes.Equal(src, again[name]) {
+					kase.Source = string(src)
+					fail("generate.nondeterministic", "%s differs between two runs on the same schema", name)
+				}
 			}
 		}
 		if len(first) != len(schema.Tables)+1 {
